@@ -92,7 +92,10 @@ class Result:
         lst = self.viol.setdefault(f.sig, [])
         if any(t[1] == f.key for t in lst):
             return
-        lst.append((f.size, f.key, f.case, f.detail))
+        case = f.case
+        if getattr(self, 'int_mode', False) and isinstance(case, dict):
+            case = dict(case, __int64__=True)
+        lst.append((f.size, f.key, case, f.detail))
         lst.sort(key=lambda t: (t[0], t[1]))
         del lst[KEYS_PER_SIG:]
         self.check_failfast()
@@ -173,9 +176,13 @@ def jsonable(o):
 
 
 def _worker(args):
-    mod_name, unit = args
+    mod_name, unit, ordinal = args
     mod = sys.modules[mod_name]
     res = Result()
+    from mc import curves as _cv
+    # every third unit presents integral curves as int64 arrays (the properties do not depend on the dtype)
+    _cv.set_int_mode(ordinal % 3 == 1 and not getattr(mod, 'NO_INT_MODE', False))
+    res.int_mode = _cv.INT_MODE
     try:
         mod.run_unit(unit, res)
     except UnitAbort:
@@ -183,13 +190,15 @@ def _worker(args):
     except BaseException:
         return ('error', repr(unit), traceback.format_exc())
     for sig, lst in res.viol.items():
-        res.viol[sig] = [t[:4] + (unit,) for t in lst]
+        res.viol[sig] = [t[:4] + ((unit, ordinal),) for t in lst]
     return ('ok', unit, res)
 
 
 def _replay_sigs(args):
     mod_name, case = args
     mod = sys.modules[mod_name]
+    from mc import curves as _cv
+    _cv.set_int_mode(isinstance(case, dict) and case.get('__int64__', False))
     a = sorted(set(f.sig for f in mod.replay(case)))
     b = sorted(set(f.sig for f in mod.replay(case)))
     return a, b
@@ -209,13 +218,13 @@ def totuple(o):
     return o
 
 
-def rerun_unit_for(mod, unit, sig, key):
+def rerun_unit_for(mod, unit, sig, key, ordinal=0):
     """Re-run one unit in a freshly forked process (same initial state as the original worker, because
     every unit runs in its own forked child) and report whether (sig, key) is violated again.  This is
     the replay of an operation SEQUENCE, for violations that depend on earlier calls of the history."""
     ctx = mp.get_context('fork')
     with ctx.Pool(1, maxtasksperchild=1) as pool:
-        status, _u, payload = pool.apply(_worker, ((mod.__name__, unit),))
+        status, _u, payload = pool.apply(_worker, ((mod.__name__, unit, ordinal),))
     if status != 'ok':
         return False, payload
     for t in payload.viol.get(sig, []):
@@ -246,8 +255,9 @@ def run_check(mod, tier, seed):
         return 2
     # VERIF_SEED rotates the unit order only (the set of units is fixed per tier, plus the bonus profile
     # the module derived from the seed).
+    tasks = [(mod.__name__, u, i) for i, u in enumerate(units)]
     r = seed % len(units)
-    units = units[r:] + units[:r]
+    tasks = tasks[r:] + tasks[:r]
     warm = getattr(mod, 'WARM', None)
     if warm is not None:
         warm()
@@ -255,12 +265,12 @@ def run_check(mod, tier, seed):
     nproc = max(1, min(NPROC, len(units)))
     errors = []
     if nproc == 1 or os.environ.get('VERIF_SERIAL'):
-        it = map(_worker, [(mod.__name__, u) for u in units])
+        it = map(_worker, tasks)
         pool = None
     else:
         ctx = mp.get_context('fork')
         pool = ctx.Pool(nproc, maxtasksperchild=1)
-        it = pool.imap_unordered(_worker, [(mod.__name__, u) for u in units], chunksize=1)
+        it = pool.imap_unordered(_worker, tasks, chunksize=1)
     done_units = 0
     for status, unit, payload in it:
         if status == 'error':
@@ -282,7 +292,7 @@ def run_check(mod, tier, seed):
     for sig in sorted(total.viol, key=lambda s: (total.viol[s][0][0], s)):
         for entry in total.viol[sig][:1]:
             size, key, case, detail = entry[:4]
-            unit = entry[4] if len(entry) > 4 else None
+            unit, ordinal = entry[4] if len(entry) > 4 else (None, 0)
             try:
                 sigs1, sigs2 = replay_in_child(mod, case)
             except BaseException:
@@ -296,9 +306,9 @@ def run_check(mod, tier, seed):
             # whole operation sequence of the unit (deterministic enumeration) in a fresh forked process.
             ok, t = (False, None)
             if unit is not None:
-                ok, t = rerun_unit_for(mod, unit, sig, key)
+                ok, t = rerun_unit_for(mod, unit, sig, key, ordinal)
             if ok:
-                hcase = {'oracle': '__unit__', 'unit': jsonable(unit), 'expect_signature': sig, 'expect_key': key,
+                hcase = {'oracle': '__unit__', 'unit': jsonable(unit), 'ordinal': ordinal, 'expect_signature': sig, 'expect_key': key,
                          'isolated_case': jsonable(case)}
                 hdetail = ('HISTORY-DEPENDENT: the isolated call satisfies the property, the same call inside the unit\'s '
                            'operation sequence does not (state leaks between calls). ' + str(detail))
